@@ -20,6 +20,8 @@ import gogen
 import k4
 import trcorr
 import scopecorr
+import corecorr
+import heapcorr
 
 LEVEL = "proof"
 FINDINGS = os.path.join(C.VERIF, "findings", "C01")
@@ -63,7 +65,7 @@ def shrink(files, calls, fn, scratch):
 
 def check(ctx, build=None):
     if build is None:
-        build = C.ensure_built("C01", ["translator", "guards"], need_harness=False, extra_go=gomod.EXTRA_GO)
+        build = C.ensure_built("C01", ["translator", "guards", "printer"], need_harness=False, extra_go=gomod.EXTRA_GO)
     if not build.driver_ok:
         raise C.Infra("the Lean driver does not build; the interpreter is needed for C01")
     ntests, nfailing, problems = k4.calibrate()
@@ -102,6 +104,12 @@ def check(ctx, build=None):
             if len(samples) < 1 and calls:
                 lab, want, got = r["calls"][0]
                 samples.append({"seed": seed, "call": lab, "go": want, "gooselang": got, "function": (k4.func_source(files, calls[0][1]) or "")[:1500]})
+            if r.get("arity_violations") and not found:
+                found = True
+                av = r["arity_violations"][0]
+                ctx.violation("counterexample", "K4: a call reads back with another number of arguments than the function takes",
+                              {"proto": "k4", "seed": seed, "function": av["inside"], "go_source": k4.func_source(files, av["inside"]), "emitted": k4.emitted_def(r["text"], av["inside"])},
+                              expected="%s applied to %s arguments" % (av["callee"], av["takes"]), observed=av)
             if (r["order_violations"] or r["duplicates"]) and not found:
                 found = True
                 stats["ill_ordered_outputs"] += 1
@@ -158,6 +166,30 @@ def check(ctx, build=None):
                     ctx.violation("counterexample", "scoping: native Go, the model and the emitted GooseLang disagree on a program of :=, var, assignment, blocks and conditionals",
                                   {"proto": "scope", "seed": ts, "function": bad["function"], "go_source": bad["go"]},
                                   expected={"go": bad["native_go"]}, observed={"gooselang": bad["interpreter_on_emitted"], "model_go": bad["model_go_semantics"]})
+        # ---- the composed model (variables + control flow + loops + 64-bit arithmetic) against the real translator
+        for ts in range(ctx.seed * 40 + 900, ctx.seed * 40 + 900 + (2 if ctx.tier == "quick" else 30)):
+            st, bad = corecorr.run(ts, 25, scratch)
+            for k in ("functions", "accepted", "rejected", "value_checks", "loopvar_hides", "known_loop_variable_scope_differences"):
+                stats["core_" + k] += st.get(k, 0)
+            if bad and not any(b["name"].startswith("core:") for b in build.broken):
+                build.broken.append({"kind": "correspondence", "name": "core: Model.Core.tr / its two semantics vs the tree goose emits / native Go / the interpreter", "detail": json.dumps(bad)[:2500]})
+                if bad["what"] == "values differ" and not found:
+                    found = True
+                    ctx.violation("counterexample", "core: native Go and the emitted GooseLang disagree on a program of variables, assignments, conditionals, loops with break/continue and early returns",
+                                  {"proto": "core", "seed": ts, "function": bad["function"], "argument": bad.get("argument"), "go_source": bad["go"], "emitted": bad.get("emitted"), "tokens": bad.get("tokens")},
+                                  expected={"go": bad["native_go"]}, observed={"gooselang": bad["interpreter_on_emitted"], "model_target_semantics": bad["model_target_semantics"]})
+        # ---- the heap model (struct values and pointers, cells, slices and subslices, aliasing) against the real translator
+        for ts in range(ctx.seed * 40 + 1300, ctx.seed * 40 + 1300 + (2 if ctx.tier == "quick" else 30)):
+            st, bad = heapcorr.run(ts, 30, scratch)
+            for k in ("functions", "accepted", "rejected", "panicking", "known_let_store"):
+                stats["heap_" + k] += st.get(k, 0)
+            if bad and not any(b["name"].startswith("heap:") for b in build.broken):
+                build.broken.append({"kind": "correspondence", "name": "heap: Model.Heap.trGoose / its two semantics vs the tree goose emits / native Go / the interpreter", "detail": json.dumps(bad, default=str)[:2500]})
+                if bad["what"].startswith("values differ") and not found:
+                    found = True
+                    ctx.violation("counterexample", "heap: native Go and the emitted GooseLang disagree on a program of struct values, pointers, cells and slices",
+                                  {"proto": "heap", "seed": ts, "function": bad["function"], "go_source": bad["go"], "tokens": bad.get("line")},
+                                  expected={"go": bad.get("native_go")}, observed={"gooselang": bad.get("interpreter_on_emitted"), "model_target_semantics": bad.get("model_target_semantics"), "model_go_semantics": bad.get("model_go_semantics")})
         # ---- known findings: replay the committed witnesses
         known = {e["key"]: e for e in C.load_known("C01") if e.get("status") == "known"}
         for path in sorted(glob.glob(os.path.join(FINDINGS, "*.go")) + glob.glob(os.path.join(FINDINGS + "-fixed", "*.go"))):
@@ -176,6 +208,8 @@ def check(ctx, build=None):
                 found = True
                 ctx.violation("counterexample", "K4: a witness program that is not a listed known finding fails", {"proto": "k4-witness", "file": path, "functions": bad},
                               expected="equal results", observed=r["mismatches"][:3])
+        # ---- the command re-translating over an older output file must leave exactly the new translation
+        found = gomod.retranslate_stream(ctx, scratch, "the emitted file is not the translation of the current source", found)
     finally:
         shutil.rmtree(scratch, ignore_errors=True)
     C.report_broken_obligations(ctx, build, found)
@@ -205,8 +239,12 @@ def check(ctx, build=None):
 
 
 def replay(ctx, path):
+    _inp = json.load(open(path)).get("input", {})
+    if isinstance(_inp, dict) and _inp.get("proto") == "retranslate":
+        C.ensure_built("C01", ["translator", "guards", "printer"], need_harness=False, extra_go=gomod.EXTRA_GO)
+        return gomod.replay_retranslate(_inp)
     obj = json.load(open(path))
-    C.ensure_built("C01", ["translator", "guards"], need_harness=False, extra_go=gomod.EXTRA_GO)
+    C.ensure_built("C01", ["translator", "guards", "printer"], need_harness=False, extra_go=gomod.EXTRA_GO)
     inp = obj["input"]
     if inp.get("proto") != "k4" or "seed" not in inp:
         return check(ctx)
